@@ -12,6 +12,9 @@ mod c02;
 mod c05;
 mod c06;
 mod c08;
+mod c09;
+mod parsers;
+mod samples;
 mod pk;
 mod c12;
 mod faults;
@@ -35,6 +38,7 @@ fn build(id: &str, ctx: &Ctx) -> Option<Property> {
         "C05" => c05::build(ctx),
         "C06" => c06::build(ctx),
         "C08" => c08::build(ctx),
+        "C09" => c09::build(ctx),
         "C12" => c12::build(ctx),
         _ => return None,
     })
